@@ -153,10 +153,11 @@ namespace nmtools::utl
         vector(size_type N)
             : allocator{}
             , buffer_(allocator.allocate(N))
-            , size_(N)
+            , size_(0)
             , buffer_size_(N)
             , initialized(true)
         {
+            // grows from empty, so that all N elements are value-initialised
             resize(N);
         }
         vector(const vector& other)
@@ -225,6 +226,10 @@ namespace nmtools::utl
                 buffer_ = new_buffer;
             } else {
                 // not invalidating the value, for now
+            }
+            // like std::vector, elements that come into existence are value-initialised
+            for (size_type i=old_size; i<new_size; i++) {
+                buffer_[i] = T{};
             }
         }
 
